@@ -2,6 +2,7 @@
 from .common import *
 from .codewrite import *
 from .lifecycle import *
+from . import scans
 
 DECIDED = ("lockset/ownership premises that make `std::sync::Mutex` give exclusion for every schedule: R4.1 every construction of a public "
            "struct holding a MutexGuard takes that guard from lock() on one and the same static (no try_lock, no fresh mutex); R4.2 the lock "
@@ -105,17 +106,15 @@ def run(ck, models, tier):
                 ck.floor("R4.1", "%s/constructions-evaluated" % an, n, 1, tm.target)
         ck.ob("R4.1", "single-static", tm.target, len(statics) == 1, "all guard-holding structs lock the same static: %s" % sorted(statics))
         # ---------------- no try_lock / no other mutex
-        ntry = nnew = 0
+        tl = scans.try_lock_sites(tm.facts)
+        for fn, name, t in tl:
+            ck.ob("R4.1", "try_lock/%s" % short(fn), tm.target, False, "%s calls %s" % (fn, name))
         for b in tm.facts.data["bodies"]:
             for name, foreign, local, t in tm.facts.callees_of(b):
-                if "try_lock" in name:
-                    ntry += 1
-                    ck.ob("R4.1", "try_lock/%s" % short(b["path"]), tm.target, False, "%s calls %s" % (b["path"], name))
-                if name.endswith("Mutex::<T>::new"):
-                    nnew += 1
+                if name.startswith("std::sync::") and name.endswith("Mutex::<T>::new"):
                     if not b["def_kind"].startswith("Static") and not (b["def_kind"] in ("AssocFn", "Fn") and tm.facts.fns.get(b["path"], {}).get("impl_of")):
                         ck.ob("R4.1", "fresh-mutex/%s" % short(b["path"]), tm.target, False, "%s creates a mutex at run time" % b["path"])
-        ck.ob("R4.1", "no-try_lock", tm.target, ntry == 0, "%d try_lock call sites" % ntry)
+        ck.ob("R4.1", "no-try_lock", tm.target, not tl, "%d try_lock call sites" % len(tl))
         # ---------------- R4.2 the wrapper
         wrappers = []
         for b in tm.facts.fn_bodies():
@@ -214,40 +213,19 @@ def run(ck, models, tier):
                           short(inj), names, cfield, cidx, lockf[0][1], lidx, empties))
         n_touch = 0
         for adt, fname, fidx, a in holders:
-            for b in tm.facts.fn_bodies():
-                for blk in b["blocks"]:
-                    places = []
-                    for st in blk["stmts"]:
-                        if st["k"] == "assign":
-                            places.append(st["place"])
-                            rv = st["rv"]
-                            for key in ("place",):
-                                if key in rv:
-                                    places.append(rv[key])
-                            for key in ("op", "a", "b"):
-                                if key in rv and isinstance(rv[key], dict) and "place" in rv[key]:
-                                    places.append(rv[key]["place"])
-                            for o in rv.get("ops", []):
-                                if "place" in o:
-                                    places.append(o["place"])
-                    t = blk["term"]
-                    if t["k"] == "drop":
-                        places.append(t["place"])
-                    if t["k"] == "call":
-                        for o in t["args"]:
-                            if "place" in o:
-                                places.append(o["place"])
-                    for pl in places:
-                        ty = b["locals"][pl["l"]]["ty"]
-                        for pe in pl["p"]:
-                            if pe["k"] == "deref":
-                                ty = ty.get("inner") if ty else None
-                            elif pe["k"] == "field":
-                                if ty and ty.get("k") == "adt" and ty.get("path") == adt and pe["i"] == fidx:
-                                    n_touch += 1
-                                    ck.ob("R4.6", "%s/lock-field-touched/%s" % (short(adt), short(b["path"])), tm.target, False,
-                                          "%s mentions %s.%s outside its construction: the guard could be moved out, replaced or dropped early" % (b["path"], short(adt), fname))
-                                ty = pe["ty"]
-                            else:
-                                ty = None
+            for fn in scans.field_mentions(tm.facts, adt, fidx):
+                n_touch += 1
+                ck.ob("R4.6", "%s/lock-field-touched/%s" % (short(adt), short(fn)), tm.target, False,
+                      "%s mentions %s.%s outside its construction: the guard could be moved out, replaced or dropped early" % (fn, short(adt), fname))
         ck.ob("R4.6", "lock-field-untouched", tm.target, n_touch == 0, "%d mention(s) of a MutexGuard field outside constructions" % n_touch)
+    scans.control(ck, ck.ws, "R4.1", "try_lock-call", scans.try_lock_sites)
+
+    def stolen(f):
+        out = []
+        for p_, a in f.adts.items():
+            for v in a["variants"]:
+                for i, fl in enumerate(v["fields"]):
+                    if fl["ty"]["k"] == "adt" and fl["ty"]["path"] == MUTEXGUARD:
+                        out += [b for b in scans.field_mentions(f, p_, i) ]
+        return out
+    scans.control(ck, ck.ws, "R4.6", "guard-field-mentioned-outside-construction", stolen)
